@@ -148,10 +148,12 @@ open Nima.Frag
 
 `Model/Cst.lean` (input: concrete-syntax trees with explicit gaps), `Model/FromCst.lean`
 (`NixSourceCode.from_cst`, `AttributeSet.from_cst`, `Binding.from_cst`, `NixList.from_cst`,
-`parse_delimited_sequence`) and `Model/Rebuild.lean` (`rebuild` of the same classes, string level
-and piece level) model the parse side and the render side for files made of attribute sets with
-plain single-segment names, lists and leaf values, nested to any depth, with arbitrary whitespace
-and line / one-line block comments in every gap. The statements below are about EVERY such tree
+`Parenthesis.from_cst`, `FunctionCall.from_cst`, `parse_delimited_sequence`) and `Model/Rebuild.lean`
+(`rebuild` of the same classes, string level and piece level) model the parse side and the render
+side for files made of attribute sets with plain single-segment names, lists, parenthesised
+expressions `( e )`, function applications `f x` / `f x y` and leaf values, nested to any depth, with
+arbitrary whitespace and line / one-line block comments in every gap (inside parentheses and between
+function and argument too). The statements below are about EVERY such tree
 (structural induction), tied to the implementation by `fragment_correspondence`. -/
 
 /-- The piece list the theorems speak about is the output text, cut into pieces. -/
@@ -211,6 +213,33 @@ example : fragSample.flatten = "# h\n{ a = 1; # e\n}\n".toList := by decide
 example : fragSample.wf = true ∧ fragSample.noLeadingWs = true := by decide
 example : fragSample.roundtrip = .ok "# h\n{\n  a = 1; # e\n}\n".toList := by decide
 example : fragSample.codeTokens = ["{", "a", "=", "1", ";", "}"].map String.toList := by decide
+
+/-- `f /* a */ (g # c⏎ x) [ 1 ]`: a curried call whose first argument is a parenthesised call with a
+    line comment between function and argument -/
+def callSample : File :=
+  { items := .elem []
+      (.app (.app (.leaf .ident "f".toList) [(" ".toList, "/* a */".toList)] " ".toList
+          (.paren (.elem [] (.app (.leaf .ident "g".toList) [(" ".toList, "# c".toList)] "\n ".toList
+            (.leaf .ident "x".toList)) .nil) []))
+        [] " ".toList (.list (.elem " ".toList (.leaf .int "1".toList) .nil) " ".toList)) .nil,
+    endGap := [] }
+
+example : callSample.flatten = "f /* a */ (g # c\n x) [ 1 ]".toList := by decide
+example : callSample.wf = true ∧ callSample.noLeadingWs = true := by decide
+example : callSample.roundtrip = .ok "f /* a */ (g # c\n x) [ 1 ]".toList := by decide
+example : callSample.codeTokens = ["f", "(", "g", "x", ")", "[", "1", "]"].map String.toList := by decide
+
+/-- `{ a = f (⏎⏎    x⏎  ) y; }`: a multi-line parenthesis (blank line after `(`) as an argument -/
+def parenSample : File :=
+  { items := .elem [] (.set false [] (.bind " ".toList "a".toList [] " ".toList [] " ".toList
+      (.app (.app (.leaf .ident "f".toList) [] " ".toList
+          (.paren (.elem "\n\n    ".toList (.leaf .ident "x".toList) .nil) "\n  ".toList))
+        [] " ".toList (.leaf .ident "y".toList)) [] [] .nil) " ".toList) .nil,
+    endGap := [] }
+
+example : parenSample.flatten = "{ a = f (\n\n    x\n  ) y; }".toList := by decide
+example : parenSample.wf = true ∧ parenSample.noLeadingWs = true := by decide
+example : parenSample.roundtrip = .ok "{\n  a = f (\n\n    x\n  ) y;\n}".toList := by decide
 
 end Fragment
 
